@@ -168,3 +168,138 @@ func runFault(c *core.Ctx, when string) (r faultResult, injected int, ok bool) {
 }
 
 var faultWhens = []string{"1", "2", "3", "5", "2+2", "1..3"}
+
+// ---- injected inotify_add_watch failure (C04: a failed Add leaves the set untouched)
+
+type addFaultResult struct {
+	Adds       int      `json:"adds"`
+	Failed     []string `json:"failed"`
+	Complaints []string `json:"complaints"`
+	FinalList  int      `json:"final_list"`
+}
+
+// AddFaultChildMain adds six existing directories (one of them twice, one through a symlink)
+// while strace makes some inotify_add_watch calls fail with ENOSPC ("no space left": the
+// per-user watch limit). After EVERY call: a failed path is not listed, a succeeded one is,
+// the listed set did not otherwise change, and kernel marks == tables == WatchList.
+func AddFaultChildMain(args []string) int {
+	out := args[0]
+	var r addFaultResult
+	d, _ := os.MkdirTemp("", "vaddfault")
+	defer os.RemoveAll(d)
+	w, err := fsnotify.NewWatcher()
+	if err != nil {
+		fmt.Fprintln(os.Stderr, err)
+		return 2
+	}
+	defer w.Close()
+	go func() {
+		for {
+			select {
+			case _, ok := <-w.Events:
+				if !ok {
+					return
+				}
+			case <-w.Errors:
+			}
+		}
+	}()
+	var paths []string
+	for i := 0; i < 6; i++ {
+		p := filepath.Join(d, fmt.Sprint("d", i))
+		os.Mkdir(p, 0o755)
+		paths = append(paths, p)
+	}
+	os.Symlink(paths[1], filepath.Join(d, "l1"))
+	seq := []string{paths[0], paths[1], paths[0], filepath.Join(d, "l1"), paths[2], paths[3], paths[2], paths[4], paths[5]}
+	model := map[string]bool{}
+	inoOf := map[string]string{filepath.Join(d, "l1"): paths[1]}
+	listed := func() map[string]bool {
+		m := map[string]bool{}
+		for _, p := range w.WatchList() {
+			m[p] = true
+		}
+		return m
+	}
+	for _, p := range seq {
+		before := listed()
+		err := w.Add(p)
+		r.Adds++
+		after := listed()
+		target := p
+		if t, ok := inoOf[p]; ok {
+			target = t
+		}
+		if err != nil {
+			r.Failed = append(r.Failed, filepath.Base(p)+": "+err.Error())
+			if fmt.Sprint(before) != fmt.Sprint(after) {
+				r.Complaints = append(r.Complaints, fmt.Sprintf("failed Add(%s) changed WatchList from %d to %d entries", filepath.Base(p), len(before), len(after)))
+			}
+		} else {
+			already := model[target]
+			for q := range model {
+				if inoOf[q] == target || q == target {
+					already = true
+				}
+			}
+			if !already {
+				model[p] = true
+			}
+			if !after[p] && !already {
+				r.Complaints = append(r.Complaints, fmt.Sprintf("Add(%s) succeeded but the path is not listed", filepath.Base(p)))
+			}
+		}
+		if bad, _ := twin.Invariant(w); bad != "" {
+			r.Complaints = append(r.Complaints, fmt.Sprintf("after Add(%s)=%v: %s", filepath.Base(p), err, bad))
+		}
+	}
+	for _, p := range w.WatchList() {
+		if err := w.Remove(p); err != nil {
+			r.Complaints = append(r.Complaints, fmt.Sprintf("Remove(%s)=%v", filepath.Base(p), err))
+		}
+	}
+	r.FinalList = len(w.WatchList())
+	if marks, err := twin.KernelMarks(fsnotify.VerifInotifyFd(w)); err == nil && len(marks) != 0 {
+		r.Complaints = append(r.Complaints, fmt.Sprintf("%d kernel marks left after removing everything", len(marks)))
+	}
+	b, _ := json.Marshal(r)
+	os.WriteFile(out, b, 0o644)
+	return 0
+}
+
+func runAddFault(c *core.Ctx, when string) (r addFaultResult, injected int, ok bool) {
+	self, err := os.Executable()
+	if err != nil {
+		return r, 0, false
+	}
+	if _, err := exec.LookPath("strace"); err != nil {
+		return r, 0, false
+	}
+	out := filepath.Join(c.Tmp, "addfault-"+strings.NewReplacer(".", "_", "+", "p").Replace(when)+".json")
+	trace := out + ".strace"
+	cmd := exec.Command("strace", "-f", "-o", trace, "-e", "trace=inotify_add_watch", "-e", "inject=inotify_add_watch:error=ENOSPC:when="+when, self, "addfaultchild", out)
+	cmd.Stdout, cmd.Stderr = os.Stderr, os.Stderr
+	if err := cmd.Start(); err != nil {
+		return r, 0, false
+	}
+	done := make(chan error, 1)
+	go func() { done <- cmd.Wait() }()
+	select {
+	case <-done:
+	case <-time.After(60 * time.Second):
+		cmd.Process.Kill()
+		<-done
+		c.Inconclusive("add-fault session under strace did not finish within 60 s")
+		return r, 0, false
+	}
+	tb, _ := os.ReadFile(trace)
+	injected = strings.Count(string(tb), "(INJECTED)")
+	b, err := os.ReadFile(out)
+	if err != nil || json.Unmarshal(b, &r) != nil {
+		c.Inconclusive("add-fault session wrote no result (when=" + when + ")")
+		return r, injected, false
+	}
+	return r, injected, true
+}
+
+var addFaultWhens = []string{"1", "2", "3", "4", "2+2", "3+3", "5..7", "1+3"}
